@@ -41,16 +41,55 @@ func skolemize(t *Term, pos bool) *Term {
 	return t
 }
 
-type qinfo struct {
-	f        *Term
-	patterns []qpat
-}
 type qpat struct {
+	arr *Term // array operand of the select/store (may contain bound vars)
 	v   *Term // bound var
-	off *Term // pattern is v + off (off may be nil)
+	off *Term // pattern index is v + off (off may be nil)
 }
 
-func collect(t *Term, seen map[int]bool, foralls *[]*Term, grounds map[*Sort][]*Term, gseen map[int]bool) {
+type gsel struct {
+	bases map[int]bool // ids of the base arrays reachable through ite arms / store bases
+	idx   *Term
+}
+
+func basesOf(a *Term, out map[int]bool) {
+	if out[a.ID] {
+		return
+	}
+	out[a.ID] = true
+	switch a.Op {
+	case "ite":
+		basesOf(a.Args[1], out)
+		basesOf(a.Args[2], out)
+	case "store":
+		basesOf(a.Args[0], out)
+	case "select":
+		// an array read out of a heap of arrays: identify it by the heap's leaves (one level
+		// down, negative keys) and by every array value stored into that heap
+		if a.S.Kind == KArray {
+			heapParts(a.Args[0], out, map[int]bool{})
+		}
+	}
+}
+
+func heapParts(h *Term, out map[int]bool, seen map[int]bool) {
+	if seen[h.ID] {
+		return
+	}
+	seen[h.ID] = true
+	switch h.Op {
+	case "ite":
+		heapParts(h.Args[1], out, seen)
+		heapParts(h.Args[2], out, seen)
+	case "store":
+		heapParts(h.Args[0], out, seen)
+		basesOf(h.Args[2], out)
+	default:
+		out[-h.ID] = true
+	}
+}
+
+func collect(t *Term, seen map[int]bool, foralls *[]*Term, grounds *[]gsel, gseen map[string]bool) {
 	if seen[t.ID] {
 		return
 	}
@@ -58,11 +97,13 @@ func collect(t *Term, seen map[int]bool, foralls *[]*Term, grounds map[*Sort][]*
 	if t.Op == "forall" && !t.HasBound {
 		*foralls = append(*foralls, t)
 	}
-	if (t.Op == "select" || t.Op == "store") && !t.Args[1].HasBound && t.Args[1].S.Kind == KBV {
-		g := t.Args[1]
-		if !gseen[g.ID] {
-			gseen[g.ID] = true
-			grounds[g.S] = append(grounds[g.S], g)
+	if (t.Op == "select" || t.Op == "store") && !t.Args[1].HasBound && !t.Args[0].HasBound {
+		k := fmt.Sprintf("%d/%d", t.Args[0].ID, t.Args[1].ID)
+		if !gseen[k] {
+			gseen[k] = true
+			g := gsel{bases: map[int]bool{}, idx: t.Args[1]}
+			basesOf(t.Args[0], g.bases)
+			*grounds = append(*grounds, g)
 		}
 	}
 	for _, a := range t.Args {
@@ -99,18 +140,18 @@ func patternsOf(body *Term, vars []*Term) []qpat {
 			ix := t.Args[1]
 			for _, v := range vars {
 				if ix == v {
-					k := fmt.Sprintf("%d:", v.ID)
+					k := fmt.Sprintf("%d:%d:", t.Args[0].ID, v.ID)
 					if !dedup[k] {
 						dedup[k] = true
-						out = append(out, qpat{v, nil})
+						out = append(out, qpat{t.Args[0], v, nil})
 					}
 				} else if ix.Op == "bvadd" && len(ix.Args) == 2 {
 					for s := 0; s < 2; s++ {
-						if ix.Args[s] == v && !containsVar(ix.Args[1-s], v) && !ix.Args[1-s].HasBound {
-							k := fmt.Sprintf("%d:%d", v.ID, ix.Args[1-s].ID)
+						if ix.Args[s] == v && !ix.Args[1-s].HasBound {
+							k := fmt.Sprintf("%d:%d:%d", t.Args[0].ID, v.ID, ix.Args[1-s].ID)
 							if !dedup[k] {
 								dedup[k] = true
-								out = append(out, qpat{v, ix.Args[1-s]})
+								out = append(out, qpat{t.Args[0], v, ix.Args[1-s]})
 							}
 						}
 					}
@@ -128,7 +169,7 @@ func patternsOf(body *Term, vars []*Term) []qpat {
 	return out
 }
 
-// Instantiate returns asserts plus ground instances of their universals (two rounds).
+// Instantiate returns asserts plus ground instances of their universals (up to three rounds).
 func Instantiate(asserts []*Term, maxInst int) []*Term {
 	out := make([]*Term, len(asserts))
 	for i, a := range asserts {
@@ -138,11 +179,11 @@ func Instantiate(asserts []*Term, maxInst int) []*Term {
 	total := 0
 	for round := 0; round < 2; round++ {
 		var foralls []*Term
-		grounds := map[*Sort][]*Term{}
+		var grounds []gsel
 		seen := map[int]bool{}
-		gseen := map[int]bool{}
+		gseen := map[string]bool{}
 		for _, a := range out {
-			collect(a, seen, &foralls, grounds, gseen)
+			collect(a, seen, &foralls, &grounds, gseen)
 		}
 		added := false
 		for _, f := range foralls {
@@ -154,15 +195,34 @@ func Instantiate(asserts []*Term, maxInst int) []*Term {
 			v := vars[0]
 			pats := patternsOf(body, vars)
 			n := 0
-			for _, g := range grounds[v.S] {
-				// stable order: iterate grounds, then derived candidates
-				for _, p := range pats {
-					t := g
+			for _, p := range pats {
+				var pbases map[int]bool
+				if !p.arr.HasBound {
+					pbases = map[int]bool{}
+					basesOf(p.arr, pbases)
+				}
+				for _, g := range grounds {
+					if g.idx.S != v.S {
+						continue
+					}
+					if pbases != nil {
+						match := false
+						for id := range pbases {
+							if g.bases[id] {
+								match = true
+								break
+							}
+						}
+						if !match {
+							continue
+						}
+					}
+					t := g.idx
 					if p.off != nil {
-						t = BVSub(g, p.off)
+						t = BVSub(g.idx, p.off)
 					}
 					k := fmt.Sprintf("%d/%d", f.ID, t.ID)
-					if done[k] || total >= maxInst || n >= 48 {
+					if done[k] || total >= maxInst || n >= 32 {
 						continue
 					}
 					done[k] = true
